@@ -29,6 +29,12 @@ type Sys struct {
 	// looked up by history instead of being dumped again on every replay of the same prefix.
 	hist       []byte
 	ShapeCache *sync.Map // history (as string) -> shape; shared by all instances of one scenario (nil: no caching)
+
+	// How OpReload loads after reopening (C24 start modes): 0 Load() (verifies / rebuilds the fast index),
+	// 1 LoadVersion(LoadHint) and 2 LoadReadonly() (no fast-index maintenance: an index enabled on a DB committed
+	// without it stays incomplete).
+	LoadMode int
+	LoadHint int64
 }
 
 func NewSys(u *Universe, cfg Cfg) *Sys {
@@ -108,7 +114,14 @@ func (s *Sys) apply(op Op) (r Res) {
 		}
 		s.T.Close()
 		s.open()
-		r.Ver, r.Err = s.T.Load()
+		switch {
+		case s.LoadMode == 1 && s.LoadHint > 0:
+			r.Ver, r.Err = s.T.LoadVersion(s.LoadHint)
+		case s.LoadMode == 2:
+			r.Ver, r.Err = s.T.LoadReadonly()
+		default:
+			r.Ver, r.Err = s.T.Load()
+		}
 	case OpLoadVer:
 		r.Ver, r.Err = s.T.LoadVersion(int64(op.A))
 	case OpPrune:
